@@ -7,6 +7,7 @@ import (
 	"sync"
 
 	"github.com/deepteams/webp/internal/bitio"
+	"github.com/deepteams/webp/internal/verifhook"
 )
 
 // losslessEncoderPool reuses Encoder structs across successive lossless
@@ -48,6 +49,7 @@ func releaseEncoder(enc *Encoder) {
 	enc.palette = nil
 	enc.transforms = enc.transforms[:0]
 	losslessEncoderPool.Put(enc)
+	verifhook.PoolPut("lossless.Encoder")
 }
 
 // VP8L lossless encoder entry point.
